@@ -74,7 +74,9 @@ namespace {
     template <class S, unsigned Sup, int UK, class Rcu, template <class> class MkT>
     void go( const char* name, bool check_size )
     {
-        run_set_variant< SetAdapter<S, MkT<S>, Sup, UK, Rcu, true> >( "C13", name, true, check_size );
+        // IterableList gets a 2.5x budget: its defects found so far (F19 and the seeded C13-2) need a stall in a narrow window and showed
+        // up about once in 2000 segments
+        run_set_variant< SetAdapter<S, MkT<S>, Sup, UK, Rcu, true> >( "C13", name, true, check_size, 0, UK == UPD_REPLACING ? 2.5 : 1.0 );
     }
 }
 
